@@ -252,16 +252,55 @@ Definition load_old := load_with visit_map_old.
 
 (** ** The text of the manifest: where the section is cut (ConfigFile::new)
 
-    `cfg_file_str.split_once("[package.metadata.leptos-i18n]")`: the FIRST occurrence of the header
-    string, wherever it stands; what precedes it is replaced by its line feeds only (so that TOML
-    error positions keep their line numbers) and chained with what follows it.  The result is the
-    text handed to the TOML deserializer; [None] = ConfigNotPresent. *)
+    Since f0237de: the header is the FIRST occurrence of "[package.metadata.leptos-i18n]" that starts
+    its line, i.e. the text between the last line feed (or the start of the file) and the occurrence
+    is, after stripping leading U+FEFF characters, only white space (Rust's `str::trim`: the
+    White_Space code points, [is_ws] — of which the manifest writer produces space, tab and '\r').
+    `match_indices` enumerates non-overlapping occurrences; the header string has no border (its
+    first character '[' occurs nowhere else in it), so this is every occurrence, and the model
+    examines every position.  What precedes the header is replaced by its line feeds only (TOML error
+    positions keep their line numbers) and chained with what follows it; [None] = ConfigNotPresent.
+
+    [section_text_old] is the code before f0237de: the first occurrence wherever it stands
+    (`split_once`), so a mention of the header in a comment or a string cut the manifest there. *)
 Definition header : str :=
   [91; 112; 97; 99; 107; 97; 103; 101; 46; 109; 101; 116; 97; 100; 97; 116; 97; 46;
    108; 101; 112; 116; 111; 115; 45; 105; 49; 56; 110; 93].
 Definition line_feed : N := 10.
+Definition bom : N := 65279.
 Definition only_line_feeds (s : str) : str := filter (fun c => c =? line_feed) s.
+
+Fixpoint drop_boms (l : str) : str :=
+  match l with c :: r => if c =? bom then drop_boms r else l | [] => [] end.
+(* `line[..].trim_start_matches('\u{feff}').trim().is_empty()` *)
+Definition line_start_ok (line : str) : bool := forallb is_ws (drop_boms line).
+(* the text of the current line so far, after reading one more character *)
+Definition line_step (line : str) (c : N) : str := if c =? line_feed then [] else line ++ [c].
+
+(* [scan line s]: [s] is what remains to be read, [line] the part of the current line already read;
+   returns (what is read before the header, what follows the header) *)
+Fixpoint scan (line : str) (s : str) {struct s} : option (str * str) :=
+  match s with
+  | [] => None
+  | c :: r =>
+      let continue :=
+        match scan (line_step line c) r with
+        | Some (a, b) => Some (c :: a, b)
+        | None => None
+        end in
+      match strip_prefix header s with
+      | Some rest => if line_start_ok line then Some ([], rest) else continue
+      | None => continue
+      end
+  end.
+
 Definition section_text (manifest : str) : option str :=
+  match scan [] manifest with
+  | Some (before, body) => Some (only_line_feeds before ++ body)
+  | None => None
+  end.
+
+Definition section_text_old (manifest : str) : option str :=
   match split_once header manifest with
   | Some (before, body) => Some (only_line_feeds before ++ body)
   | None => None
